@@ -7,7 +7,7 @@ explicit fields of one value that lose their relative numbering."""
 import bisect
 import re
 
-from .. import core, gen_abbr, hostile, outparse, probes
+from .. import core, gen_abbr, hostile, outparse, probes, stretch
 
 ID = 'C13'
 RULE = ('cases = (abbreviation with and without explicit ${n:ph} fields, syntax, newline string, indent, baseIndent, callback behaviour); markup syntaxes '
@@ -301,6 +301,16 @@ def run_shard(desc, ctx):
         ctx.notes['probes'] = 'unavailable: %r' % (pr.unavailable,)
         ctx.mon('probe:offset-bookkeeping', 1)
     try:
+        import emmet as _em
+        from emmet.scanner import ScannerException as _SE
+        from emmet.token_scanner import TokenScannerException as _TE
+        # near misses (vmon/stretch.py): text the formatter looks at with a pattern - it only has to come back
+        for ab in stretch.near_miss_inputs(rng, ['p{<%s}', 'li{<%s/>}*2', 'ul>li{<%s}+li', 'p{%s}', '{<%s}', 'div>p{<%s}>b', 'a[title="<%s"]'], 14):
+            cfgn = {'syntax': rng.choice(['html', 'xml', 'jsx', 'vue', 'pug', 'haml', 'slim']), 'options': {'output.format': rng.random() < 0.7, 'comment.enabled': rng.random() < 0.2}}
+            stretch.must_return(ctx, _em.expand, (ab, cfgn), {'near_miss': True, 'abbr': ab, 'config': cfgn, '_allowed': (_SE, _TE)})
+        for line in stretch.near_miss_inputs(rng, stretch.WRAP_RUN_LINES, 8):
+            cfgn = {'syntax': rng.choice(['html', 'xml', 'jsx', 'vue', 'pug', 'haml', 'slim']), 'text': [line, 'two']}
+            stretch.must_return(ctx, _em.expand, (rng.choice(['ul>li*', 'p', 'div>p*>b']), cfgn), {'near_miss': True, 'wrap_line': line, 'config': cfgn, '_allowed': (_SE, _TE)})
         for i in range(desc['n']):
             explicit = rng.random() < 0.5
             snippet_names = rng.random() < 0.2
